@@ -337,8 +337,8 @@ theorem NoPull.map_row (u : VarId) (rs : List (List Val)) : NoPull u (rs.map Ev.
   intro i h
   simp at h
 
-theorem traceVar_noPull (w : World) (u v : VarId) (env : Env) (k : Kont) (hb : Bnd u env)
-    (hk : ∀ e x b, Bnd u e → NoPull u (k e x b)) : NoPull u (traceVar w v env k) := by
+theorem traceVar_noPull (w : World) (cp : Bool) (u v : VarId) (env : Env) (k : Kont) (hb : Bnd u env)
+    (hk : ∀ e x b, Bnd u e → NoPull u (k e x b)) : NoPull u (traceVar w cp v env k) := by
   unfold traceVar
   split
   · exact hk _ _ _ hb
@@ -355,7 +355,7 @@ theorem traceVar_noPull (w : World) (u v : VarId) (env : Env) (k : Kont) (hb : B
 theorem traceTerm_noPull (w : World) (u : VarId) (c : Bool) (t : Term) (env : Env) (k : Kont) (hb : Bnd u env)
     (hk : ∀ e x b, Bnd u e → NoPull u (k e x b)) : NoPull u (traceTerm w c t env k) := by
   induction t generalizing c env k with
-  | var v => exact traceVar_noPull w u v env k hb hk
+  | var v => exact traceVar_noPull w c u v env k hb hk
   | lit id x =>
     simp only [traceTerm]
     split
@@ -612,8 +612,8 @@ structure NonRowClosed (P : Ev → Prop) : Prop where
 theorem AllEv.readEvent {P : Ev → Prop} (hP : NonRowClosed P) (x : Val) (n : AttrName) : AllEv P (readEvent x n) := by
   cases x <;> first | exact AllEv.nil P | exact AllEv.single (hP.read _ _)
 
-theorem traceVar_allEv {P : Ev → Prop} (hP : NonRowClosed P) (w : World) (v : VarId) (env : Env) (k : Kont)
-    (hk : ∀ e x b, AllEv P (k e x b)) : AllEv P (traceVar w v env k) := by
+theorem traceVar_allEv {P : Ev → Prop} (hP : NonRowClosed P) (w : World) (cp : Bool) (v : VarId) (env : Env) (k : Kont)
+    (hk : ∀ e x b, AllEv P (k e x b)) : AllEv P (traceVar w cp v env k) := by
   unfold traceVar
   split
   · exact hk _ _ _
@@ -626,7 +626,7 @@ theorem traceVar_allEv {P : Ev → Prop} (hP : NonRowClosed P) (w : World) (v : 
 theorem traceTerm_allEv {P : Ev → Prop} (hP : NonRowClosed P) (w : World) (c : Bool) (t : Term) (env : Env)
     (k : Kont) (hk : ∀ e x b, AllEv P (k e x b)) : AllEv P (traceTerm w c t env k) := by
   induction t generalizing c env k with
-  | var v => exact traceVar_allEv hP w v env k hk
+  | var v => exact traceVar_allEv hP w c v env k hk
   | lit id x => simp only [traceTerm]; split <;> exact hk _ _ _
   | attr t n ih =>
     simp only [traceTerm]
@@ -715,8 +715,8 @@ theorem nonRow_eq_self_of_noRow (evs : List Ev) (h : AllEv (fun e => e.isRow = f
 
 /-! ### a variable that does not occur is never pulled; exact count of the universal pulls -/
 
-theorem traceVar_noPull_ne (w : World) (u v : VarId) (env : Env) (k : Kont) (hne : v ≠ u)
-    (hk : ∀ e x b, NoPull u (k e x b)) : NoPull u (traceVar w v env k) := by
+theorem traceVar_noPull_ne (w : World) (cp : Bool) (u v : VarId) (env : Env) (k : Kont) (hne : v ≠ u)
+    (hk : ∀ e x b, NoPull u (k e x b)) : NoPull u (traceVar w cp v env k) := by
   unfold traceVar
   split
   · exact hk _ _ _
@@ -730,7 +730,7 @@ theorem traceTerm_noPull_ne (w : World) (u : VarId) (c : Bool) (t : Term) (env :
     (ht : u ∉ t.vars) (hk : ∀ e x b, NoPull u (k e x b)) : NoPull u (traceTerm w c t env k) := by
   induction t generalizing c env k with
   | var v =>
-    refine traceVar_noPull_ne w u v env k ?_ hk
+    refine traceVar_noPull_ne w c u v env k ?_ hk
     rintro rfl; exact ht (by simp [Term.vars])
   | lit id x => simp only [traceTerm]; split <;> exact hk _ _ _
   | attr t n ih =>
